@@ -289,6 +289,13 @@ pub fn run(o: &Opts) -> i32 {
     let corpus_path = format!("{}/../../../corpus/C01/queries.txt", o.out);
     let _ = corpus_path;
 
+    // fixed texts with their exact values: exponent literals directly followed by a signed number; zero over zero
+    for (t, v) in [("1e2+3", "103/1"), ("1e-1+1", "11/10"), ("2e1+1e1+5", "35/1"), ("1E5-3", "99997/1"), ("1e2+3e1", "130/1"), ("5e0+0", "5/1"), ("1e+2+3", "103/1"), ("1e2-3", "97/1"),
+                   ("1e2+3_0", "130/1"), ("1.5e1+2.5e1", "40/1"), ("0/0", "err"), ("(1-1)/(2-2)", "err"), ("0|0", "err"), ("5*0/0", "err"), ("0 / (3 mod 3)", "err"), ("0 mod 0", "err"), ("0^-1", "err"), ("0/5", "0/1")] {
+        writeln!(req, "{}", req_line(t)).unwrap();
+        if v == "err" { writeln!(exp, "err").unwrap(); st.undefined += 1; } else { writeln!(exp, "number {} -", v).unwrap(); st.defined += 1; }
+        st.total += 1;
+    }
     // 1. bounded-exhaustive: every 1-operator tree over the boundary alphabet (both operand orders)
     for op in OPS {
         for l in &alpha { for r in &alpha {
